@@ -22,7 +22,10 @@ import random
 BUILTIN = ["Int", "Float", "String", "Boolean", "ID"]
 TEXTS = ["plain", "with \"quotes\"", "back\\slash", "triple \"\"\" quotes", " leading blank", "trailing blank ", "line one\nline two", "\n leading newline",
          "trailing newline\n", "indented\n  second", "\tTab", "uni code \u0085 sep \x0c ff", "ends with quote\"", "ends with backslash\\", "é ü 😀",
-         "a" * 75, "# not a comment", "multi\n\n\nblank lines", "  ", "x"]
+         "a" * 75, "# not a comment", "multi\n\n\nblank lines", "  ", "x",
+         # white space that is not GraphQL's (space, tab): no part of any indentation
+         "\u00a0nbsp first\n\u00a0nbsp second", "\u3000wide\n\u3000  wide too", "\u00a0", "text\n\u2003", "\u2028", "\x1f unit sep\n\x1f again", "\x0b\x0c", "\u00a0" + "b" * 80,
+         "\x85 nel\n\x85 nel", "ends with nbsp\u00a0\n\u00a0"]
 LOCS_EXEC = ["QUERY", "MUTATION", "SUBSCRIPTION", "FIELD", "FRAGMENT_DEFINITION", "FRAGMENT_SPREAD", "INLINE_FRAGMENT", "VARIABLE_DEFINITION"]
 LOCS_TS = ["SCHEMA", "SCALAR", "OBJECT", "FIELD_DEFINITION", "ARGUMENT_DEFINITION", "INTERFACE", "UNION", "ENUM", "ENUM_VALUE", "INPUT_OBJECT",
            "INPUT_FIELD_DEFINITION"]
@@ -310,6 +313,30 @@ def gen_schema(seed, size=None, adversarial_text=True):
     return Gen(seed, size, adversarial_text).build()
 
 
+# valid definitions that carry the name of a specified directive but differ from it (older drafts, vendor variants)
+REDEFINED = [
+    {"name": "deprecated", "description": None, "locations": ["FIELD_DEFINITION", "ENUM_VALUE"], "repeatable": False,
+     "args": [{"name": "reason", "type": ["N", "String"], "description": None, "deprecation": None, "hasDefault": True,
+               "default": {"t": "s", "v": [ord(c) for c in "No longer supported"]}}]},
+    {"name": "include", "description": "vendor variant", "locations": ["FIELD", "FRAGMENT_SPREAD", "INLINE_FRAGMENT"], "repeatable": False,
+     "args": [{"name": "if", "type": ["NN", ["N", "Boolean"]], "description": None, "deprecation": None, "hasDefault": False, "default": {"t": "null"}},
+              {"name": "unless", "type": ["N", "Boolean"], "description": None, "deprecation": None, "hasDefault": False, "default": {"t": "null"}}]},
+    {"name": "skip", "description": None, "locations": ["FIELD"], "repeatable": True,
+     "args": [{"name": "if", "type": ["NN", ["N", "Boolean"]], "description": None, "deprecation": None, "hasDefault": False, "default": {"t": "null"}}]},
+    {"name": "specifiedBy", "description": None, "locations": ["SCALAR", "OBJECT"], "repeatable": False,
+     "args": [{"name": "url", "type": ["NN", ["N", "String"]], "description": None, "deprecation": None, "hasDefault": False, "default": {"t": "null"}}]},
+    {"name": "oneOf", "description": "old", "locations": ["INPUT_OBJECT", "FIELD_DEFINITION"], "repeatable": False, "args": []},
+]
+
+
+def with_redefined_directive(S, rnd):
+    """S plus one directive that redefines a specified directive (its name is not reserved)"""
+    import copy
+    out = dict(S)
+    out["directives"] = list(S["directives"]) + [copy.deepcopy(rnd.choice(REDEFINED))]
+    return out
+
+
 # ---------------------------------------------------------------------------------------------
 # renderer 1: SDL text (own writer, independent of print_schema)
 
@@ -470,7 +497,10 @@ def to_objects(S):
                              is_repeatable=d["repeatable"], description=d["description"]) for d in S["directives"]]
     return GraphQLSchema(query=made.get(S["query"]), mutation=made.get(S["mutation"]) if S["mutation"] else None,
                          subscription=made.get(S["subscription"]) if S["subscription"] else None,
-                         types=[made[t["name"]] for t in S["types"]], directives=[*specified_directives, *dirs], description=S["description"])
+                         types=[made[t["name"]] for t in S["types"]],
+                         # a directive of the schema that carries the name of a specified directive takes its place
+                         directives=[*[d for d in specified_directives if d.name not in {x["name"] for x in S["directives"]}], *dirs],
+                         description=S["description"])
 
 
 # ---------------------------------------------------------------------------------------------
